@@ -1874,6 +1874,21 @@ char * hostlist_nth(hostlist_t hl, int n)
 }
 
 
+/* The host at `depth' of range hl->hr[idx] was deleted by splitting the
+ * range in two: iterators that had reached that host go on in the new
+ * range idx + 1, which holds the hosts that followed it.
+ */
+static void hostlist_split_iterators(hostlist_t hl, int idx, int depth)
+{
+    hostlist_iterator_t i;
+    for (i = hl->ilist; i; i = i->next) {
+        if (i->idx == idx && i->depth >= depth) {
+            i->depth -= depth + 1;
+            i->hr = hl->hr[++i->idx];
+        }
+    }
+}
+
 int hostlist_delete_nth(hostlist_t hl, int n)
 {
     int i, count;
@@ -1896,8 +1911,11 @@ int hostlist_delete_nth(hostlist_t hl, int n)
             } else if ((new = hostrange_delete_host(hr, num))) {
                 hostlist_insert_range(hl, new, i + 1);
                 hostrange_destroy(new);
+                hostlist_split_iterators(hl, i, n - count);
             } else if (hostrange_empty(hr))
                 hostlist_delete_range(hl, i);
+            else
+                hostlist_shift_iterators(hl, i, n - count, 0);
 
             goto done;
         } else
@@ -2384,12 +2402,11 @@ int hostlist_remove(hostlist_iterator_t i)
     if (new) {
         hostlist_insert_range(i->hl, new, i->idx + 1);
         hostrange_destroy(new);
-        i->hr = i->hl->hr[++i->idx];
-        i->depth = -1;
+        hostlist_split_iterators(i->hl, i->idx, i->depth);
     } else if (hostrange_empty(i->hr)) {
         hostlist_delete_range(i->hl, i->idx);
     } else
-        i->depth--;
+        hostlist_shift_iterators(i->hl, i->idx, i->depth, 0);
 
     i->hl->nhosts--;
     UNLOCK_HOSTLIST(i->hl);
